@@ -137,3 +137,17 @@ add("C30", "translation_validation",
     "enumeration is compared with the meta-model source executed as Python; X_from_str(text) is executed on a symbolic text: it yields the literal of the declared name exactly when the text equals a "
     "declared value, else None; literal -> text -> literal is the identity.",
     "The constants clause is a finite comparison (weak solver role, stated); the symbolic part covers texts of <= 2 (3) code points and single-character edits of declared values.")
+
+add("C11", "translation_validation",
+    "bounded symbolic execution (CrossHair/z3) of a validator for the emitted JSON-Schema vocabulary on to_jsonable(instance) of the generated SDK with symbolic property values, against the generated verification; regex keywords as NFA reachability terms over UTF-16 code units",
+    "The REAL jsonschema generator emits the schema and the REAL python generator the SDK for each corpus model. For every concrete class an instance with symbolic values is verified by the SDK and "
+    "serialized; a validator for exactly the emitted vocabulary (cross-checked against the jsonschema library on every run) is executed symbolically on the document: an instance without verification errors "
+    "must be accepted. Concretely: each schema is checked against its declared draft and every $ref resolves.",
+    "Corpus as C08 plus a byte-array model. Strings ending in a line break are outside ('$' differs between Python and ECMA-262). One open known finding (byte-array lengths applied to base64 text).")
+
+add("C12", "translation_validation",
+    "same machinery as C11 in the converse direction: inferred constraints (real infer_constraints_by_class) broken by a symbolic value => the schema validator must reject; plus symbolic structural mutations of valid documents",
+    "For every concrete class of the corpus and symbolic property values: if the value breaks a length / pattern / list-size constraint which the real inference attributes to the instance's class "
+    "(own, inherited, in-lined constrained primitives), the schema must reject the SDK's document. A valid document with a mistyped value, a missing required property or a missing / unknown modelType "
+    "at a symbolic position must be rejected as well.",
+    "Exclusions of the property (descendants' tightenings of inherited list items, byte-array lengths) are excluded here, too. Corpus and bounds as C11.")
